@@ -410,6 +410,16 @@ static void op_rt(void)
   /* autodetected format */
   status = esl_msafile_OpenMem(byp, (char *) b1, n1, eslMSAFILE_UNKNOWN, NULL, &afp);
   sb_printf(" aopen=%s", h_status(status)); note_exception();
+  if (status == eslENOFORMAT) {   /* esl_msafile_OpenMem() drops the afp (and its message) on enoformat: ask the guesser itself why */
+    ESL_BUFFER *gbf = NULL; int gfmt = 0; char gerr[eslERRBUFSIZE]; ESL_MSAFILE_FMTDATA gfd;
+    gerr[0] = 0;
+    if (esl_buffer_OpenMem((char *) b1, n1, &gbf) == eslOK) {
+      esl_msafile_GuessFileFormat(gbf, &gfmt, &gfd, gerr);
+      sb_printf(" awhy=%s", strstr(gerr, "consistent w/ both") ? "ambiguous" : (gerr[0] ? "other" : "nomsg"));
+      esl_buffer_Close(gbf);
+    }
+    h_exception_seen = 0;
+  }
   if (status == eslOK) {
     sb_printf(" afmt=%s", fmt_name(afp->format));
     status = esl_msafile_Read(afp, &m3);
@@ -434,6 +444,16 @@ static void op_rt(void)
   if (m) esl_msa_Destroy(m); if (m2) esl_msa_Destroy(m2); if (m3) esl_msa_Destroy(m3);
   if (abc) esl_alphabet_Destroy(abc);
   free(b1); free(b2); free(d2); free(d3);
+}
+
+/* printf("%.2f") of a double / printf("%.1f") of a float given by their bit patterns (differential test of fmtF2/fmtF1) */
+static void op_fmt(void)
+{
+  uint64_t u = strtoull(h_arg("d") ? h_arg("d") : "0", NULL, 16); uint32_t v = (uint32_t) strtoul(h_arg("f") ? h_arg("f") : "0", NULL, 16);
+  double d; float f; char t1[512], t2[128];
+  memcpy(&d, &u, 8); memcpy(&f, &v, 4);
+  snprintf(t1, sizeof(t1), "%.2f", d); snprintf(t2, sizeof(t2), "%.1f", f);
+  sb_reset(); sb_puts("f2="); sb_hexs(t1); sb_puts(" f1="); sb_hexs(t2);
 }
 
 /* per-op leak check, so that a leak is attributed to the input that caused it (LeakSanitizer's recoverable check
@@ -475,6 +495,7 @@ static void h_op(void)
   sb_reset();
   if      (!strcmp(op, "parse")) op_parse();
   else if (!strcmp(op, "rt"))    op_rt();
+  else if (!strcmp(op, "fmt"))   op_fmt();
   else { h_out("bad-op"); return; }
   scrub_stack();
   if (leak_check() > 0) sb_puts(" leak");
